@@ -194,6 +194,22 @@ def _is_position_expr(fn, e, depth=0, seen=None):
         defs = [n.value for n in ast.walk(fn) if isinstance(n, ast.Assign)
                 and any(isinstance(t, ast.Name) and t.id == e.id
                         for t in n.targets)]
+        # x, inverse = np.unique(a, return_inverse=True): the second and
+        # later results are positions / counts
+        tuple_defs = []
+        for n in ast.walk(fn):
+            if isinstance(n, ast.Assign) and len(n.targets) == 1 and \
+                    isinstance(n.targets[0], ast.Tuple):
+                names = [t.id if isinstance(t, ast.Name) else None
+                         for t in n.targets[0].elts]
+                if e.id in names:
+                    tuple_defs.append((names.index(e.id), n.value))
+        if tuple_defs and not defs:
+            return all(k > 0 and isinstance(v, ast.Call) and (
+                call_name(v) or '').split('.')[-1] == 'unique' and any(
+                kw.arg in ('return_inverse', 'return_index',
+                           'return_counts') for kw in v.keywords)
+                for k, v in tuple_defs)
         # loop / comprehension index of enumerate
         for n in ast.walk(fn):
             gens = []
